@@ -241,11 +241,16 @@ class SchemaAnchors:
             raise AnalysisError("ObjectClassDescription.__str__/from_string not found")
         # encoder: module function applied to self.description in __str__
         self.encoder = None
-        for n in ast.walk(s.node):
-            if isinstance(n, ast.Call) and isinstance(n.func, ast.Name) and any(isinstance(a, ast.Attribute) and a.attr == "description" for a in n.args):
-                q = model.resolve_name(SCHEMA, n.func.id)
-                if q in model.functions:
-                    self.encoder = model.functions[q]
+        str_side = [s] + [f_ for f_ in reachable(model, s, SCHEMA) if f_ is not s]        # __str__ and the formatting helpers it is split into
+        self.str_side = str_side
+        for host in str_side:
+            for n in ast.walk(host.node):
+                if isinstance(n, ast.Call) and isinstance(n.func, ast.Name) and any(isinstance(a, ast.Attribute) and a.attr == "description" for a in n.args):
+                    q = model.resolve_name(SCHEMA, n.func.id)
+                    if q in model.functions and self.encoder is None:
+                        self.encoder = model.functions[q]
+            if self.encoder is not None:
+                break
         # the function handed the description may be a field-formatting helper that passes it on to the encoder proper
         def has_sub(fi_: FuncInfo) -> bool:
             return any(isinstance(n, ast.Call) and isinstance(n.func, ast.Attribute) and n.func.attr == "sub" for n in ast.walk(fi_.node))
